@@ -309,6 +309,9 @@ def _collect_comment_trivia(
     selected = list(selected)
     prev = start
     collected: list[Any] = []
+    # Inline comments are rendered ahead of the own-line ones (see
+    # split_inline_comments), so only a leading run may be marked inline.
+    inline_run = allow_inline
     for comment_node in selected:
         append_gap_between_offsets(
             collected,
@@ -318,9 +321,13 @@ def _collect_comment_trivia(
             include_linebreak=include_linebreak,
         )
         comment_expr = Comment.from_cst(comment_node)
-        if allow_inline and comment_node.start_point.row == prev.end_point.row:
-            if not inline_requires_gap or comment_node.start_byte > prev.end_byte:
-                comment_expr.inline = True
+        inline_run = (
+            inline_run
+            and comment_node.start_point.row == prev.end_point.row
+            and (not inline_requires_gap or comment_node.start_byte > prev.end_byte)
+        )
+        if inline_run:
+            comment_expr.inline = True
         collected.append(comment_expr)
         prev = comment_node
     if (
